@@ -810,6 +810,15 @@ def _helper_kind(fn: ast.FunctionDef):
         if inner and all(id(r) in in_last and isinstance(r.value, ast.Constant) and r.value.value is (not final) for r in inner) \
                 and not any(isinstance(n, (ast.Try, ast.With)) for n in ast.walk(body[-2])):
             return ("search", body)
+    # a search for a value: `return <tuple of names / name>` inside the loops of the last-but-one statement, `return None` at the end
+    if len(body) >= 2 and isinstance(body[-1], ast.Return) and (body[-1].value is None or (isinstance(body[-1].value, ast.Constant) and body[-1].value.value is None)) \
+            and isinstance(body[-2], (ast.For, ast.While)) and not body[-2].orelse:
+        inner = [r for r in rets if r is not body[-1]]
+        in_last = {id(n) for n in ast.walk(body[-2])}
+        if inner and all(id(r) in in_last and ((isinstance(r.value, ast.Tuple) and all(isinstance(e, ast.Name) for e in r.value.elts))
+                                               or isinstance(r.value, ast.Name)) for r in inner) \
+                and not any(isinstance(n, (ast.Try, ast.With)) for n in ast.walk(body[-2])):
+            return ("valsearch", body)
     return None
 
 
@@ -1037,6 +1046,250 @@ def _inline_search(m, call, body, mapping, pre) -> bool:
     return False
 
 
+def _hit_loops(v: str, flag: str, loops: ast.stmt, made: Optional[List[ast.Assign]] = None) -> List[ast.stmt]:
+    """`loops` with every `return E` spelt `v = E; flag = True; break` and `if flag: break` behind every inner loop that holds one."""
+    def has_ret(n):
+        return any(isinstance(x, ast.Return) for x in ast.walk(n))
+
+    def rewrite(block: List[ast.stmt], depth: int):
+        out: List[ast.stmt] = []
+        for st in block:
+            if isinstance(st, ast.Return):
+                out.append(ast.Assign(targets=[ast.Name(id=v, ctx=ast.Store())], value=st.value, lineno=0, col_offset=0))
+                if made is not None:
+                    made.append(out[-1])
+                out.append(ast.Assign(targets=[ast.Name(id=flag, ctx=ast.Store())], value=ast.Constant(value=True), lineno=0, col_offset=0))
+                out.append(ast.Break())
+                continue
+            if isinstance(st, (ast.For, ast.While)) and has_ret(st):
+                st.body = rewrite(st.body, depth + 1)
+                out.append(st)
+                if depth > 0:
+                    out.append(ast.If(test=ast.Name(id=flag, ctx=ast.Load()), body=[ast.Break()], orelse=[]))
+                continue
+            if isinstance(st, ast.If) and has_ret(st):
+                st.body = rewrite(st.body, depth)
+                st.orelse = rewrite(st.orelse, depth)
+            out.append(st)
+        return out
+    return rewrite([loops], 0)
+
+
+_NONNULL: Optional[Set[str]] = None
+
+
+def _never_none_local(stmts: List[ast.stmt], name: str) -> bool:
+    """Every binding of `name` in `stmts` is a display, a constructor call, or a call of a repository function whose every return is
+    one (reference/locals.json `__nonnull__`)."""
+    global _NONNULL
+    if _NONNULL is None:
+        try:
+            import json as _json
+            import os as _os
+            _NONNULL = set(_json.load(open(_os.path.join(_os.path.dirname(_os.path.dirname(_os.path.abspath(__file__))), "reference", "locals.json"))).get("__nonnull__", []))
+        except Exception:
+            _NONNULL = set()
+    defs = [a for x in stmts for a in ast.walk(x) if isinstance(a, ast.Assign) and any(isinstance(t, ast.Name) and t.id == name for t in a.targets)
+            and not (isinstance(a.value, ast.Name) and a.value.id == name)]
+    if not defs:
+        return False
+    for a in defs:
+        val = a.value
+        if isinstance(val, (ast.Tuple, ast.List, ast.Dict, ast.Set)):
+            continue
+        if isinstance(val, ast.Call):
+            nm = val.func.attr if isinstance(val.func, ast.Attribute) else (val.func.id if isinstance(val.func, ast.Name) else "")
+            if nm[:1].isupper() or nm in _NONNULL:
+                continue
+        return False
+    return True
+
+
+def _install_value_search(m: ast.AST, blk: List[ast.stmt], i: int, v: str, loops: ast.stmt, pre: List[ast.stmt]) -> bool:
+    """Replace blk[i] (`v = <search>`) by the explicit search with a found-flag, and - when every hit value is a tuple of names and v
+    is otherwise only tested against None and unpacked - drop the tuple: tests become tests of the flag, the unpacking binds the names."""
+    s = blk[i]
+    flag = f"is_{v}_found"
+    if any(isinstance(n, ast.Name) and n.id == flag for n in ast.walk(m)):
+        return False
+    hits: List[ast.Assign] = []
+    body = _hit_loops(v, flag, loops, hits)
+    new_body = list(pre) + [ast.Assign(targets=[ast.Name(id=v, ctx=ast.Store())], value=ast.Constant(value=None), lineno=0, col_offset=0),
+                            ast.Assign(targets=[ast.Name(id=flag, ctx=ast.Store())], value=ast.Constant(value=False), lineno=0, col_offset=0)] + body
+    tuple_hits = hits and all(isinstance(h.value, ast.Tuple) and all(isinstance(e, ast.Name) for e in h.value.elts) for h in hits) \
+        and len({u(h.value) for h in hits}) == 1
+    name_hits = hits and not tuple_hits and all(isinstance(h.value, ast.Name) for h in hits) and len({u(h.value) for h in hits}) == 1 \
+        and _never_none_local(body, hits[0].value.id)
+    # other uses of v in the function
+    mine = {id(n) for x in new_body for n in ast.walk(x)}
+    uses = [n for n in ast.walk(m) if isinstance(n, ast.Name) and n.id == v and id(n) not in mine and not any(n is y for y in ast.walk(s))]
+    ok_simplify = bool(tuple_hits)
+    rewrites = []
+    if name_hits:
+        # v is the hit's own local (never None): `v is None` is `not flag`; when the names coincide the copy `v = v` goes away
+        parents2: Dict[int, ast.AST] = {}
+        for pnode in ast.walk(m):
+            for ch in ast.iter_child_nodes(pnode):
+                parents2[id(ch)] = pnode
+        for n in uses:
+            pn = parents2.get(id(n))
+            if isinstance(pn, ast.Compare) and pn.left is n and len(pn.ops) == 1 and isinstance(pn.ops[0], (ast.Is, ast.IsNot)) \
+                    and isinstance(pn.comparators[0], ast.Constant) and pn.comparators[0].value is None:
+                rewrites.append(("test", pn, isinstance(pn.ops[0], ast.IsNot)))
+    if ok_simplify:
+        parents: Dict[int, ast.AST] = {}
+        for pnode in ast.walk(m):
+            for ch in ast.iter_child_nodes(pnode):
+                parents[id(ch)] = pnode
+        for n in uses:
+            pn = parents.get(id(n))
+            if isinstance(pn, ast.Compare) and pn.left is n and len(pn.ops) == 1 and isinstance(pn.ops[0], (ast.Is, ast.IsNot)) \
+                    and isinstance(pn.comparators[0], ast.Constant) and pn.comparators[0].value is None:
+                rewrites.append(("test", pn, isinstance(pn.ops[0], ast.IsNot)))
+            elif isinstance(pn, ast.Assign) and pn.value is n and len(pn.targets) == 1 and isinstance(pn.targets[0], ast.Tuple) \
+                    and all(isinstance(e, ast.Name) for e in pn.targets[0].elts) and len(pn.targets[0].elts) == len(hits[0].value.elts):
+                rewrites.append(("unpack", pn, None))
+            else:
+                ok_simplify = False
+                break
+    for x in new_body:
+        for n in ast.walk(x):
+            if not getattr(n, "lineno", 0):
+                ast.copy_location(n, s)
+    blk[i:i + 1] = new_body
+    if name_hits:
+        for kind, node, positive in rewrites:
+            new = ast.Name(id=flag, ctx=ast.Load()) if positive else ast.UnaryOp(op=ast.Not(), operand=ast.Name(id=flag, ctx=ast.Load()))
+            _replace(m, node, new)
+        for b2 in list(blocks_of(m)):
+            for x in list(b2):
+                if x in hits and isinstance(x.value, ast.Name) and x.value.id == v:
+                    b2.remove(x)  # v = v
+                    if not b2:
+                        b2.append(ast.Pass())
+    if ok_simplify:
+        elts = [e.id for e in hits[0].value.elts]
+        for kind, node, positive in rewrites:
+            if kind == "test":
+                new = ast.Name(id=flag, ctx=ast.Load()) if positive else ast.UnaryOp(op=ast.Not(), operand=ast.Name(id=flag, ctx=ast.Load()))
+                _replace(m, node, new)
+            else:
+                tg = [e.id for e in node.targets[0].elts]
+                if tg == elts:
+                    for b2 in blocks_of(m):
+                        if any(x is node for x in b2):
+                            b2.remove(node)
+                            if not b2:
+                                b2.append(ast.Pass())
+                            break
+                else:
+                    node.value = ast.Tuple(elts=[ast.Name(id=e, ctx=ast.Load()) for e in elts], ctx=ast.Load())
+        # the tuple itself is no longer needed
+        for b2 in list(blocks_of(m)):
+            for x in list(b2):
+                if isinstance(x, ast.Assign) and len(x.targets) == 1 and isinstance(x.targets[0], ast.Name) and x.targets[0].id == v \
+                        and (x in hits or (isinstance(x.value, ast.Constant) and x.value.value is None)):
+                    b2.remove(x)
+                    if not b2:
+                        b2.append(ast.Pass())
+    ast.fix_missing_locations(m)
+    return True
+
+
+def _inline_value_search(m, call, body, mapping, pre) -> bool:
+    for blk in blocks_of(m):
+        for i, s in enumerate(blk):
+            if isinstance(s, ast.Assign) and s.value is call and len(s.targets) == 1 and isinstance(s.targets[0], ast.Name):
+                stmts = [_Subst(mapping).visit(ast.parse(u(x)).body[0]) for x in body[:-1]]
+                if len(stmts) != 1:
+                    return False
+                return _install_value_search(m, blk, i, s.targets[0].id, stmts[0], list(pre))
+    return False
+
+
+def _leak_is_unobservable(fn: ast.AST, s: ast.stmt, names: Set[str]) -> bool:
+    """The variables of a generator become locals of the function when the generator is spelt as loops. Nothing can tell when every
+    read of such a name outside `s` is preceded, on every path, by a binding of that name that itself follows `s` (reads after `s`), or
+    lies outside every loop around `s` (reads before `s`), or is preceded inside that loop by such a binding."""
+    parents: Dict[int, ast.AST] = {}
+    for p in ast.walk(fn):
+        for ch in ast.iter_child_nodes(p):
+            parents[id(ch)] = p
+    pos, last = _positions(fn)
+    inside_s = {id(n) for n in ast.walk(s)}
+    enc_loops = []
+    q = parents.get(id(s))
+    while q is not None:
+        if isinstance(q, (ast.For, ast.While)):
+            enc_loops.append(q)
+        q = parents.get(id(q))
+
+    def binds(st: ast.stmt, name: str) -> bool:
+        if isinstance(st, ast.Assign):
+            return any(isinstance(t, ast.Name) and t.id == name for tg in st.targets for t in ast.walk(tg))
+        return False
+
+    def dominated(n: ast.Name, lo: int) -> bool:
+        """a binding of n.id positioned after `lo` that structurally precedes n (earlier sibling of n's statement or of an ancestor of it,
+        or the target of a for loop whose body holds n)"""
+        child = n
+        p = parents.get(id(child))
+        while p is not None:
+            if isinstance(p, ast.For) and any(child is x for x in p.body) and pos[id(p)] > lo \
+                    and any(isinstance(t, ast.Name) and t.id == n.id for t in ast.walk(p.target)):
+                return True
+            for f in ("body", "orelse", "finalbody"):
+                b = getattr(p, f, None)
+                if isinstance(b, list) and any(child is x for x in b):
+                    k = [j for j, x in enumerate(b) if x is child][0]
+                    if any(binds(x, n.id) and pos[id(x)] > lo for x in b[:k]):
+                        return True
+            child, p = p, parents.get(id(p))
+        return False
+    for n in ast.walk(fn):
+        if not (isinstance(n, ast.Name) and n.id in names and isinstance(n.ctx, ast.Load)) or id(n) in inside_s:
+            continue
+        if pos[id(n)] > last[id(s)]:
+            if not dominated(n, last[id(s)]):
+                return False
+        else:
+            loops_of_n = []
+            q = parents.get(id(n))
+            while q is not None:
+                if isinstance(q, (ast.For, ast.While)):
+                    loops_of_n.append(q)
+                q = parents.get(id(q))
+            shared = [l for l in enc_loops if any(l is x for x in loops_of_n)]
+            if shared and not dominated(n, pos[id(shared[0])]):
+                return False
+    return True
+
+
+def expand_next_search(fn: ast.AST) -> int:
+    """`v = next((E for a in A for b in B if c), None)` is the explicit search: nested loops, the hit recorded, `break` out of both."""
+    done = 0
+    for blk in list(blocks_of(fn)):
+        for i, s in enumerate(blk):
+            if not (isinstance(s, ast.Assign) and len(s.targets) == 1 and isinstance(s.targets[0], ast.Name) and isinstance(s.value, ast.Call)
+                    and isinstance(s.value.func, ast.Name) and s.value.func.id == "next" and len(s.value.args) == 2 and not s.value.keywords
+                    and isinstance(s.value.args[0], ast.GeneratorExp) and isinstance(s.value.args[1], ast.Constant) and s.value.args[1].value is None):
+                continue
+            gen = s.value.args[0]
+            # the generator's variables become locals of the function: they must not be live names of it (other than being re-bound later)
+            gvars = {n.id for g in gen.generators for n in ast.walk(g.target) if isinstance(n, ast.Name)}
+            inner: List[ast.stmt] = [ast.Return(value=clone(gen.elt))]
+            for g in reversed(gen.generators):
+                for c in reversed(g.ifs):
+                    inner = [ast.If(test=clone(c), body=inner, orelse=[])]
+                inner = [ast.For(target=ast.parse(u(g.target) + " = 0").body[0].targets[0], iter=clone(g.iter), body=inner, orelse=[], lineno=s.lineno, col_offset=0)]
+            if not _leak_is_unobservable(fn, s, gvars):
+                continue
+            if _install_value_search(fn, blk, i, s.targets[0].id, inner[0], []):
+                done += 1
+                return done + expand_next_search(fn)
+    return done
+
+
 def _leading(value: ast.AST, call: ast.Call) -> bool:
     """`call` is evaluated before anything else with an effect in `value`: value is f(call, ...) / x.m(call, ...) nested."""
     node = value
@@ -1070,6 +1323,8 @@ def _inline_site(m: ast.FunctionDef, call: ast.Call, h: ast.FunctionDef, kind, b
         return _replace(m, call, new)
     if k == "search":
         return _inline_search(m, call, body, mapping, pre)
+    if k == "valsearch":
+        return _inline_value_search(m, call, body, mapping, pre)
     # procedure: the call must be a whole statement
     for blk in blocks_of(m):
         for i, s in enumerate(blk):
